@@ -15,6 +15,7 @@ extern "C" void step_order_react()  { body_order_react((unsigned) ck0); }
 extern "C" void step_order_query()  { body_order_query((unsigned) ck0); }
 extern "C" void step_substitute()         { body_substitute((unsigned) ck0, ck1, ck2, ck3, ck4); }   // configuration, dest, guard state, entry(1)/exit(0) guard, substitute dest
 extern "C" void step_substitute_forever() { body_substitute_forever((unsigned) ck0, ck1, ck2, ck3); }
+extern "C" void step_pingpong()           { body_pingpong((unsigned) ck0, ck1, ck2); }      // configuration, the two destinations
 extern "C" void step_queued3()            { body_queued3(ck0, ck1, ck2); }
 #ifdef HFSM2_ENABLE_SERIALIZATION
 extern "C" void step_save_load() { body_save_load(ck0, ck1); }                              // source configuration, destination configuration (-1 = not activated)
@@ -34,6 +35,9 @@ extern "C" void step_utilize_nested() { body_utilize_nested(ck0, ck1); }   // re
 #endif
 #ifdef VM_PLANS
 extern "C" void step_plan() { body_plan((unsigned) ck0, ck1, ck2, ck3); }        // configuration, plan shape, acting state, action (1 succeed / 2 fail)
+#ifdef VM_ORTHO_PLANS
+extern "C" void step_plan_ortho() { body_plan_ortho(ck0, ck1); }          // what the left / right prong's sub-state reports (0 silent, 1 succeed, 2 fail)
+#endif
 #ifdef VM_PLAN_PAYLOAD
 extern "C" void step_plan_payload() { body_plan_payload((unsigned) ck0, ck1); }   // configuration, task carries a payload (1/0)
 #endif
